@@ -26,7 +26,15 @@
 (* registrations received over REST, with the configuration changing in between                   *)
 (* (ConfigFetch = the atomic rendering of a fetch).  The observation actions Record* only record   *)
 (* what was signed / submitted; the invariants judge the record.  The guarded actions (SignReq,    *)
-(* RelaySubmit, ...) are the permitted behaviours; TLC checks that they imply the invariants.      *)
+(* RelayStart, ...) are the permitted behaviours; TLC checks that they imply the invariants.       *)
+(* The fan-out to the relays, to the secondary beacon nodes and to the preparation nodes is        *)
+(* explicit: every call is a process of its own (XStart ... XFinish) that overlaps the others in   *)
+(* any order, carries its own context, and is answered by an environment that honours that         *)
+(* context like an HTTP client: a call whose context is cancelled before it completes fails with   *)
+(* a context error and the rest of its payload is never delivered.  The intended protocol never    *)
+(* cancels the context of one call because of another; SpecC11SharedCancelR/N/P render a fan-out   *)
+(* with one derived context that the first failing call cancels (errgroup.WithContext) and exist   *)
+(* only to show that FailureIsolated / PreparationIsolated / ForwardedAll discriminate.            *)
 EXTENDS Integers, FiniteSets, Sequences, TLC
 
 CONSTANTS Validators,    \* validators Vouch holds accounts for          (subset of {1,2})
@@ -104,9 +112,14 @@ VARIABLES active,     \* document id of the active configuration (0 = initial)
           rLatest0,     \* latestSigned when the round started
           rSigned,      \* <<v,fee,gas>> signed successfully in this round
           rFailed,      \* <<v,fee,gas>> whose signing request failed in this round
-          sentR, doneR, \* per relay: registrations submitted in this round; relays called
-          sentN, doneN, \* per node: registrations submitted in this round; nodes called
-          prepN, donePrep,  \* per node: preparations submitted; nodes called
+          sentR, doneR, \* per relay: registrations handed to the relay's client in this round; relays called
+          sentN, doneN, \* per node: registrations handed to the node's client in this round; nodes called
+          prepN, donePrep,  \* per node: preparations handed over; nodes called
+          callR, callN, callP, \* per relay / node / preparation node: state of its call in this round:
+                        \* "idle" | "flight" | outcome ("ok" | "err" = its own failure | "ctx" = context error;
+                        \* preparations also "notactive")
+          pendR, gotR,  \* per relay: handed over and not yet delivered / delivered (batch by batch)
+          cancelled,    \* calls whose context is cancelled: <<"R", r>>, <<"N", n>>, <<"P", n>>
           fwdIn,        \* registrations received over REST in this forwarding round
           signedEver,   \* <<v,fee,gas>> ever signed successfully
           latestSigned, \* per validator: <<fee,gas>> of the last successful signing, or <<>>
@@ -116,8 +129,9 @@ VARIABLES active,     \* document id of the active configuration (0 = initial)
 cfgVars  == <<active, lastGood>>
 lockVars == <<readers, writer, waiting>>
 opVars   == <<pc, kind, arg, got, res>>
+callVars == <<callR, callN, callP, pendR, gotR, cancelled>>
 regVars  == <<phase, lastKind, rAccts, rCfg, rLatest0, rSigned, rFailed, sentR, doneR, sentN, doneN,
-              prepN, donePrep, fwdIn, signedEver, latestSigned, controlled, rounds>>
+              prepN, donePrep, fwdIn, signedEver, latestSigned, controlled, rounds, callVars>>
 vars     == <<cfgVars, lockVars, opVars, regVars>>
 
 InitCfg == active = 0 /\ lastGood = 0
@@ -136,6 +150,9 @@ InitReg ==
     /\ sentR = [r \in Relays |-> {}] /\ doneR = {}
     /\ sentN = [n \in Nodes |-> {}] /\ doneN = {}
     /\ prepN = [n \in Nodes |-> {}] /\ donePrep = {}
+    /\ callR = [r \in Relays |-> "idle"] /\ callN = [n \in Nodes |-> "idle"] /\ callP = [n \in Nodes |-> "idle"]
+    /\ pendR = [r \in Relays |-> {}] /\ gotR = [r \in Relays |-> {}]
+    /\ cancelled = {}
     /\ fwdIn = {}
     /\ signedEver = {}
     /\ latestSigned = [v \in AllV |-> <<>>]
@@ -357,7 +374,7 @@ NoWedge == \A o \in Ops : (pc[o] = "start") ~> (pc[o] = "done")
 -----------------------------------------------------------------------------
 (*                          REGISTRATION PART  (C11)                          *)
 roundVars == <<phase, lastKind, rAccts, rCfg, rLatest0, rSigned, rFailed, sentR, doneR, sentN, doneN,
-               prepN, donePrep, fwdIn>>
+               prepN, donePrep, fwdIn, callVars>>
 sigVars == <<signedEver, latestSigned>>
 
 \* the atomic rendering of a fetch (between rounds)
@@ -385,25 +402,32 @@ Required(r) == {p \in ExpFor(r) : p \notin rFailed}
 NodeMust == {v \in ResAccts : /\ Resolve(rCfg, v).rel # {}
                               /\ \A t \in Resolve(rCfg, v).rel : <<v, t[2], t[3]>> \notin rFailed}
 
+\* outcomes of a call: its own ones and the context error
+Finished == {"ok", "err", "ctx", "notactive"}
+Cx(k, i) == <<k, i>> \in cancelled
+
 ResetRoundRecord ==
     /\ rSigned' = {} /\ rFailed' = {}
     /\ sentR' = [r \in Relays |-> {}] /\ doneR' = {}
     /\ sentN' = [n \in Nodes |-> {}] /\ doneN' = {}
     /\ prepN' = [n \in Nodes |-> {}] /\ donePrep' = {}
-    /\ fwdIn' = {}
+    /\ callR' = [r \in Relays |-> "idle"] /\ callN' = [n \in Nodes |-> "idle"] /\ callP' = [n \in Nodes |-> "idle"]
+    /\ pendR' = [r \in Relays |-> {}] /\ gotR' = [r \in Relays |-> {}]
+    /\ cancelled' = {}
 
 BeginRound(k, accts) ==
     /\ phase = "idle"
     /\ phase' = k /\ lastKind' = k
     /\ rAccts' = accts /\ rCfg' = active /\ rLatest0' = latestSigned
     /\ ResetRoundRecord
+    /\ fwdIn' = {}
     /\ rounds' = rounds + 1
 
 EndRound(k) ==
     /\ phase = k
     /\ phase' = "idle"
     /\ UNCHANGED <<cfgVars, lockVars, opVars, lastKind, rAccts, rCfg, rLatest0, rSigned, rFailed, sentR, doneR,
-                   sentN, doneN, prepN, donePrep, fwdIn, sigVars, controlled, rounds>>
+                   sentN, doneN, prepN, donePrep, fwdIn, sigVars, controlled, rounds, callVars>>
 
 \* ---- observation (what the trace records) ----
 RecordSignReq(v, f, g, ok) ==
@@ -416,28 +440,98 @@ RecordSignReq(v, f, g, ok) ==
        ELSE /\ rFailed' = rFailed \cup {<<v, f, g>>}
             /\ UNCHANGED <<rSigned, signedEver, latestSigned>>
     /\ UNCHANGED <<cfgVars, lockVars, opVars, phase, lastKind, rAccts, rCfg, rLatest0, sentR, doneR, sentN, doneN,
-                   prepN, donePrep, fwdIn, controlled, rounds>>
+                   prepN, donePrep, fwdIn, controlled, rounds, callVars>>
 
-RecordRelaySubmit(r, regs) ==
+\* the observed state of the call's context (cx = TRUE: it is cancelled) joins the record
+Seen(k, i, cx) == IF cx THEN cancelled \cup {<<k, i>>} ELSE cancelled
+
+\* relay r's client is called with regs (SubmitValidatorRegistrations entered)
+RecordRelayStart(r, regs, cx) ==
     /\ phase \in {"reg", "fwd"}
     /\ sentR' = [sentR EXCEPT ![r] = @ \cup regs]
     /\ doneR' = doneR \cup {r}
+    /\ callR' = [callR EXCEPT ![r] = "flight"]
+    /\ pendR' = [pendR EXCEPT ![r] = @ \cup regs]
+    /\ cancelled' = Seen("R", r, cx)
     /\ UNCHANGED <<cfgVars, lockVars, opVars, phase, lastKind, rAccts, rCfg, rLatest0, rSigned, rFailed, sentN, doneN,
-                   prepN, donePrep, fwdIn, sigVars, controlled, rounds>>
+                   prepN, donePrep, fwdIn, sigVars, controlled, rounds, callN, callP, gotR>>
 
-RecordNodeSubmit(n, regs) ==
+\* relay r has received one batch of what it was handed
+RecordRelayDeliver(r, regs) ==
+    /\ phase \in {"reg", "fwd"} /\ callR[r] = "flight"
+    /\ regs # {} /\ regs \subseteq pendR[r]
+    /\ pendR' = [pendR EXCEPT ![r] = @ \ regs]
+    /\ gotR' = [gotR EXCEPT ![r] = @ \cup regs]
+    /\ UNCHANGED <<cfgVars, lockVars, opVars, phase, lastKind, rAccts, rCfg, rLatest0, rSigned, rFailed, sentR, doneR,
+                   sentN, doneN, prepN, donePrep, fwdIn, sigVars, controlled, rounds, callR, callN, callP, cancelled>>
+
+\* the call to relay r returns: "ok", "err" (the relay's own failure) or "ctx" (context error)
+RecordRelayFinish(r, out) ==
+    /\ phase \in {"reg", "fwd"} /\ callR[r] = "flight"
+    /\ out \in {"ok", "err", "ctx"}
+    /\ out = "ok" => pendR[r] = {}
+    /\ callR' = [callR EXCEPT ![r] = out]
+    /\ cancelled' = Seen("R", r, out = "ctx")
+    /\ UNCHANGED <<cfgVars, lockVars, opVars, phase, lastKind, rAccts, rCfg, rLatest0, rSigned, rFailed, sentR, doneR,
+                   sentN, doneN, prepN, donePrep, fwdIn, sigVars, controlled, rounds, callN, callP, pendR, gotR>>
+
+RecordNodeStart(n, regs, cx) ==
     /\ phase = "reg"
     /\ sentN' = [sentN EXCEPT ![n] = @ \cup regs]
     /\ doneN' = doneN \cup {n}
+    /\ callN' = [callN EXCEPT ![n] = "flight"]
+    /\ cancelled' = Seen("N", n, cx)
     /\ UNCHANGED <<cfgVars, lockVars, opVars, phase, lastKind, rAccts, rCfg, rLatest0, rSigned, rFailed, sentR, doneR,
-                   prepN, donePrep, fwdIn, sigVars, controlled, rounds>>
+                   prepN, donePrep, fwdIn, sigVars, controlled, rounds, callR, callP, pendR, gotR>>
 
-RecordPrepSubmit(n, preps) ==
+\* a node receives its (single) request when the call finishes "ok"
+RecordNodeFinish(n, out) ==
+    /\ phase = "reg" /\ callN[n] = "flight"
+    /\ out \in {"ok", "err", "ctx"}
+    /\ callN' = [callN EXCEPT ![n] = out]
+    /\ cancelled' = Seen("N", n, out = "ctx")
+    /\ UNCHANGED <<cfgVars, lockVars, opVars, phase, lastKind, rAccts, rCfg, rLatest0, rSigned, rFailed, sentR, doneR,
+                   sentN, doneN, prepN, donePrep, fwdIn, sigVars, controlled, rounds, callR, callP, pendR, gotR>>
+
+RecordPrepCall(n, preps, cx) ==
     /\ phase = "prep"
     /\ prepN' = [prepN EXCEPT ![n] = @ \cup preps]
     /\ donePrep' = donePrep \cup {n}
+    /\ callP' = [callP EXCEPT ![n] = "flight"]
+    /\ cancelled' = Seen("P", n, cx)
     /\ UNCHANGED <<cfgVars, lockVars, opVars, phase, lastKind, rAccts, rCfg, rLatest0, rSigned, rFailed, sentR, doneR,
-                   sentN, doneN, fwdIn, sigVars, controlled, rounds>>
+                   sentN, doneN, fwdIn, sigVars, controlled, rounds, callR, callN, pendR, gotR>>
+
+RecordPrepReturn(n, out) ==
+    /\ phase = "prep" /\ callP[n] = "flight"
+    /\ out \in {"ok", "err", "notactive", "ctx"}
+    /\ callP' = [callP EXCEPT ![n] = out]
+    /\ cancelled' = Seen("P", n, out = "ctx")
+    /\ UNCHANGED <<cfgVars, lockVars, opVars, phase, lastKind, rAccts, rCfg, rLatest0, rSigned, rFailed, sentR, doneR,
+                   sentN, doneN, prepN, donePrep, fwdIn, sigVars, controlled, rounds, callR, callN, pendR, gotR>>
+
+\* ---- the environment: relays and nodes answer like HTTP servers behind a client that honours the context ----
+\* a batch reaches the relay only while the call's context is live
+RelayDeliver(r, B) ==
+    /\ ~Cx("R", r)
+    /\ RecordRelayDeliver(r, B)
+
+\* the relay may fail at any point of its own accord; a cancelled context fails the call unless nothing is left to
+\* deliver; "ok" means everything was delivered
+RelayFinish(r, out) ==
+    /\ out = "ctx" => Cx("R", r)
+    /\ out = "ok" => (pendR[r] = {})
+    /\ RecordRelayFinish(r, out)
+
+NodeFinish(n, out) ==
+    /\ out = "ctx" => Cx("N", n)
+    /\ out = "ok" => ~Cx("N", n)
+    /\ RecordNodeFinish(n, out)
+
+PrepReturn(n, out) ==
+    /\ out = "ctx" => Cx("P", n)
+    /\ out \in {"ok", "notactive"} => ~Cx("P", n)
+    /\ RecordPrepReturn(n, out)
 
 \* ---- registration round: submitValidatorRegistrations ----
 RoundStart(accts) ==
@@ -454,26 +548,30 @@ SignReq(v, f, g, ok) ==
 
 SigningComplete == \A p \in ExpPairs : Avail(p) \/ p \in rFailed
 
-\* one call per relay with every registration it is due; the relay's reply (ok / error) changes nothing
-RelaySubmit(r) ==
+\* one call per relay with every registration it is due, each on its own goroutine: the calls overlap in any
+\* order, and how another relay's call went (ok / error / still in flight) changes nothing
+RelayStart(r) ==
     /\ phase = "reg" /\ SigningComplete /\ r \notin doneR /\ doneN = {}
     /\ \E S \in SUBSET {p \in ExpFor(r) : Avail(p)} :
           /\ Required(r) \subseteq S /\ S # {}
-          /\ RecordRelaySubmit(r, MkRegs(S))
+          /\ RecordRelayStart(r, MkRegs(S), Cx("R", r))
 
-AllRelaysDone == \A r \in Relays : Required(r) # {} => r \in doneR
+RelaysReturned == \A r \in Relays : callR[r] # "flight"
+AllRelaysDone == RelaysReturned /\ \A r \in Relays : Required(r) # {} => r \in doneR
 
-\* one call per secondary node: one registration per validator; the node's reply changes nothing
-NodeSubmit(n) ==
+\* one call per secondary node after the relays' calls returned: one registration per validator; the calls
+\* overlap, the nodes' replies change nothing
+NodeStart(n) ==
     /\ phase = "reg" /\ SigningComplete /\ AllRelaysDone /\ n \notin doneN
     /\ \E S \in SUBSET {p \in ExpPairs : Avail(p)} :
           /\ S # {}
           /\ \A p, q \in S : p[1] = q[1] => p = q
           /\ NodeMust \subseteq {p[1] : p \in S}
-          /\ RecordNodeSubmit(n, MkRegs(S))
+          /\ RecordNodeStart(n, MkRegs(S), Cx("N", n))
 
 RoundEnd ==
     /\ SigningComplete /\ AllRelaysDone
+    /\ \A n \in Nodes : callN[n] # "flight"
     /\ NodeMust # {} => doneN = Nodes
     /\ EndRound("reg")
 
@@ -485,12 +583,14 @@ PrepStart(accts) ==
     /\ BeginRound("prep", accts)
     /\ UNCHANGED <<cfgVars, lockVars, opVars, sigVars, controlled>>
 
-\* the node's reply (ok / error / not active) changes nothing
-PrepSubmit(n) ==
+\* every node is called, whatever the others replied (ok / error / not active); the property does not say
+\* whether one after the other or at the same time
+PrepCall(n) ==
     /\ n \notin donePrep
-    /\ RecordPrepSubmit(n, ExpPrep)
+    /\ RecordPrepCall(n, ExpPrep, Cx("P", n))
 
 PrepEnd ==
+    /\ \A n \in Nodes : callP[n] # "flight"
     /\ ExpPrep # {} => donePrep = Nodes
     /\ EndRound("prep")
 
@@ -501,11 +601,13 @@ Bare(S) == {[v |-> x.v, fee |-> x.fee, gas |-> x.gas] : x \in S}
 
 FwdCandidates == {[v |-> v, fee |-> c[1], gas |-> c[2]] : v \in AllV, c \in {<<1, 1>>, <<2, 2>>}}
 
-FwdSubmit(r) ==
+\* the same fan-out to the relays as in a registration round
+FwdRelayStart(r) ==
     /\ phase = "fwd" /\ r \notin doneR /\ FwdFor(r) # {}
-    /\ RecordRelaySubmit(r, {[v |-> x.v, fee |-> x.fee, gas |-> x.gas, sigok |-> TRUE] : x \in FwdFor(r)})
+    /\ RecordRelayStart(r, {[v |-> x.v, fee |-> x.fee, gas |-> x.gas, sigok |-> TRUE] : x \in FwdFor(r)}, Cx("R", r))
 
 FwdEnd ==
+    /\ RelaysReturned
     /\ \A r \in Relays : FwdFor(r) # {} => r \in doneR
     /\ EndRound("fwd")
 
@@ -514,24 +616,46 @@ FwdStart(regs) ==
     /\ phase = "idle"
     /\ phase' = "fwd" /\ lastKind' = "fwd"
     /\ rAccts' = {} /\ rCfg' = active /\ rLatest0' = latestSigned
-    /\ rSigned' = {} /\ rFailed' = {}
-    /\ sentR' = [r \in Relays |-> {}] /\ doneR' = {}
-    /\ sentN' = [n \in Nodes |-> {}] /\ doneN' = {}
-    /\ prepN' = [n \in Nodes |-> {}] /\ donePrep' = {}
+    /\ ResetRoundRecord
     /\ fwdIn' = regs
     /\ rounds' = rounds + 1
     /\ UNCHANGED <<cfgVars, lockVars, opVars, sigVars, controlled>>
+
+\* a batch is any non-empty part of what is still pending (the client sends the payload in chunks, one after the other)
+Batches(r) == (SUBSET pendR[r]) \ {{}}
 
 NextC11 ==
     \/ \E out \in Outcomes : ConfigFetch(out)
     \/ \E accts \in SUBSET Validators : RoundStart(accts) \/ PrepStart(accts)
     \/ \E v \in Validators, f \in 0..2, g \in 0..2, ok \in BOOLEAN : SignReq(v, f, g, ok)
-    \/ \E r \in Relays : RelaySubmit(r) \/ FwdSubmit(r)
-    \/ \E n \in Nodes : NodeSubmit(n) \/ PrepSubmit(n)
+    \/ \E r \in Relays : RelayStart(r) \/ FwdRelayStart(r)
+    \/ \E r \in Relays : \E B \in Batches(r) : RelayDeliver(r, B)
+    \/ \E r \in Relays, out \in {"ok", "err", "ctx"} : RelayFinish(r, out)
+    \/ \E n \in Nodes : NodeStart(n) \/ PrepCall(n)
+    \/ \E n \in Nodes, out \in {"ok", "err", "ctx"} : NodeFinish(n, out)
+    \/ \E n \in Nodes, out \in {"ok", "err", "notactive", "ctx"} : PrepReturn(n, out)
     \/ RoundEnd \/ PrepEnd \/ FwdEnd
     \/ \E regs \in {S \in SUBSET FwdCandidates : Cardinality(S) \in 1..2} : FwdStart(regs)
 
 SpecC11 == Init /\ [][NextC11]_vars
+
+\* NOT the intended protocol: the calls of a fan-out share one derived context which the first call that
+\* fails cancels (errgroup.WithContext; a loop that gives up its context after a failing node).  Every other
+\* call of the same fan-out - in flight or not yet started - then sees a cancelled context.
+SharedCancel(k) ==
+    /\ \/ /\ k = "R" /\ \E r \in Relays : callR[r] = "err"
+          /\ cancelled' = cancelled \cup {<<"R", q>> : q \in Relays}
+       \/ /\ k = "N" /\ \E n \in Nodes : callN[n] = "err"
+          /\ cancelled' = cancelled \cup {<<"N", m>> : m \in Nodes}
+       \/ /\ k = "P" /\ \E n \in Nodes : callP[n] = "err"
+          /\ cancelled' = cancelled \cup {<<"P", m>> : m \in Nodes}
+    /\ cancelled' # cancelled
+    /\ UNCHANGED <<cfgVars, lockVars, opVars, phase, lastKind, rAccts, rCfg, rLatest0, rSigned, rFailed, sentR, doneR,
+                   sentN, doneN, prepN, donePrep, fwdIn, sigVars, controlled, rounds, callR, callN, callP, pendR, gotR>>
+
+SpecC11SharedCancelR == Init /\ [][NextC11 \/ SharedCancel("R")]_vars
+SpecC11SharedCancelN == Init /\ [][NextC11 \/ SharedCancel("N")]_vars
+SpecC11SharedCancelP == Init /\ [][NextC11 \/ SharedCancel("P")]_vars
 
 \* ---- the invariants judge the record ----
 \* C11: the registration sent to a relay names the validator with the fee recipient and gas limit
@@ -554,27 +678,53 @@ ReuseOnlyIfUnchanged ==
     lastKind = "reg" =>
         \A x \in UNION ({sentR[r] : r \in Relays} \cup {sentN[n] : n \in Nodes}) : Avail(<<x.v, x.fee, x.gas>>)
 
+\* a relay that did not fail of its own accord has received everything it was handed: nothing but the relay's
+\* own failure ("err") may keep a registration from arriving - in particular not a context that was cancelled
+\* because another relay failed
+RelayReached(r) == callR[r] # "err" => (callR[r] # "flight" /\ sentR[r] \subseteq gotR[r])
+
 \* C11: a failing relay, beacon node, signing request or unresolvable validator takes away only its own
 FailureIsolated ==
     (lastKind = "reg" /\ phase = "idle") =>
-        /\ \A r \in Relays : Required(r) \subseteq Pairs(sentR[r])
-        /\ NodeMust # {} => \A n \in Nodes : NodeMust \subseteq {x.v : x \in sentN[n]}
+        /\ \A r \in Relays : Required(r) \subseteq Pairs(sentR[r]) /\ RelayReached(r)
+        /\ NodeMust # {} => \A n \in Nodes : /\ NodeMust \subseteq {x.v : x \in sentN[n]}
+                                             /\ callN[n] \in {"ok", "err"}
 
 \* C11: every beacon node receives a preparation for each such validator with its resolved fee recipient
 PreparationExact == lastKind = "prep" => \A n \in donePrep : prepN[n] = ExpPrep
-PreparationIsolated == (lastKind = "prep" /\ phase = "idle" /\ ExpPrep # {}) => donePrep = Nodes
+PreparationIsolated ==
+    (lastKind = "prep" /\ phase = "idle" /\ ExpPrep # {}) =>
+        /\ donePrep = Nodes
+        /\ \A n \in Nodes : callP[n] \in {"ok", "err", "notactive"}
 
 \* registrations of validators Vouch does not control are forwarded unchanged, the others dropped
 ControlledDropped == lastKind = "fwd" => \A r \in Relays : \A x \in sentR[r] : x.v \notin controlled
 ForwardedUnchanged ==
     lastKind = "fwd" => \A r \in Relays : \A x \in sentR[r] : x.sigok /\ [v |-> x.v, fee |-> x.fee, gas |-> x.gas] \in FwdFor(r)
-ForwardedAll == (lastKind = "fwd" /\ phase = "idle") => \A r \in Relays : FwdFor(r) \subseteq Bare(sentR[r])
+ForwardedAll ==
+    (lastKind = "fwd" /\ phase = "idle") => \A r \in Relays : FwdFor(r) \subseteq Bare(sentR[r]) /\ RelayReached(r)
 
 TypeOKC11 ==
     /\ phase \in {"idle", "reg", "prep", "fwd"}
     /\ rAccts \subseteq Validators /\ controlled \subseteq Validators
     /\ doneR \subseteq Relays /\ doneN \subseteq Nodes /\ donePrep \subseteq Nodes
     /\ rSigned \subseteq signedEver
+    /\ \A r \in Relays : /\ callR[r] \in {"idle", "flight", "ok", "err", "ctx"}
+                         /\ pendR[r] \subseteq sentR[r] /\ gotR[r] \subseteq sentR[r]
+                         /\ (callR[r] = "idle") = (r \notin doneR)
+    /\ \A n \in Nodes : /\ callN[n] \in {"idle", "flight", "ok", "err", "ctx"}
+                        /\ callP[n] \in {"idle", "flight", "ok", "err", "notactive", "ctx"}
+                        /\ (callN[n] = "idle") = (n \notin doneN)
+                        /\ (callP[n] = "idle") = (n \notin donePrep)
+    /\ cancelled \subseteq ({"R"} \X Relays) \cup ({"N", "P"} \X Nodes)
 
 RoundBound == rounds <= MaxRounds
+
+\* model checking only (CONSTRAINT of the configurations with long histories, whose invariants about content,
+\* signatures and reuse do not read the calls' outcomes; the fan-out is explored in full detail - partial
+\* deliveries, every outcome of every call - by MC_BlockRelay_C11_fanout.cfg): payloads are delivered in one
+\* piece and the calls succeed
+CoarseFanOut ==
+    /\ \A r \in Relays : (pendR[r] = {} \/ gotR[r] = {}) /\ callR[r] # "err"
+    /\ \A n \in Nodes : callN[n] # "err" /\ callP[n] \notin {"err", "notactive"}
 =============================================================================
